@@ -566,6 +566,12 @@ def run(repo, rep):
         'must be the one the operator list dictates. No text is parsed.')
     cross_read_default(repo, rep)
     check_actions(repo, rep)
+    # which token a word becomes is part of "the operator table decides":
+    # an operator word is an operator token wherever it stands
+    from sa.rules import c16
+    rep.rule('R16d', 'see C16: a word is an operator token iff it is in the '
+             'operator table, whatever surrounds it (context-free lexing)')
+    c16.check_keywords(repo, rep)
     total = 0
     samples = []
     ncfg = 0
